@@ -2227,16 +2227,28 @@ func Generate(repo, module string, roots []Root) (string, error) {
 	if err != nil {
 		return "", err
 	}
+	// A root that is no longer in the subset is LEFT OUT (with its reason in the header) instead of failing
+	// the whole module: then exactly the tie theorems that mention it stop compiling, i.e. the broken
+	// obligation is reported by the properties that depend on that function and by no other.
+	var okRoots []Root
 	var errs []string
 	for _, r := range roots {
 		if err := t.Translate(r); err != nil {
-			errs = append(errs, err.Error())
+			errs = append(errs, strings.ReplaceAll(err.Error(), "\n", " "))
+		} else {
+			okRoots = append(okRoots, r)
 		}
 	}
+	text := t.Emit(module, okRoots)
 	if len(errs) > 0 {
-		return "", fmt.Errorf("go2lean: %d root(s) are no longer in the translatable subset:\n  %s", len(errs), strings.Join(errs, "\n  "))
+		note := "/-! NOT TRANSLATED (outside the subset in the current source; tie theorems that need them fail):\n"
+		for _, e := range errs {
+			note += "  " + strings.ReplaceAll(e, "-/", "- /") + "\n"
+		}
+		note += "-/\n"
+		text = strings.Replace(text, "set_option linter.unusedVariables false\n", note+"set_option linter.unusedVariables false\n", 1)
 	}
-	return t.Emit(module, roots), nil
+	return text, nil
 }
 
 // Survey tries every function of a package directory and reports which translate (used to choose roots).
@@ -2441,11 +2453,12 @@ func Table(repo string, roots []Root) ([]TableEntry, error) {
 	if err != nil {
 		return nil, err
 	}
+	var okRoots []Root
 	for _, r := range roots {
-		if err := t.Translate(r); err != nil {
-			return nil, err
+		if err := t.Translate(r); err == nil {
+			okRoots = append(okRoots, r)
 		}
 	}
-	_, e := t.emitTable(roots)
+	_, e := t.emitTable(okRoots)
 	return e, nil
 }
